@@ -6,6 +6,7 @@ import (
 	"errors"
 	"fmt"
 	"sync"
+	"sync/atomic"
 	"time"
 
 	flyt "github.com/mark3labs/flyt"
@@ -338,6 +339,143 @@ func runPanicCase(cs *PanicCase) (fs []finding) {
 	}
 	if n := after + offEmpty + offDefault; n > 0 {
 		fs = append(fs, finding{"continued-after-panicking-callback:" + cs.Phase, fmt.Sprintf("the %s callback of a node (%s flow) panicked with a value of kind %s; %d further node(s) ran afterwards (behind the empty action: %d, behind the default action: %d, behind the node's own action: %d)", cs.Phase, cs.Shape, cs.Val, n, offEmpty, offDefault, after)})
+	}
+	return fs
+}
+
+// RouteCase: the same configuration reached through different routes (C19).
+type RouteCase struct {
+	Family string `json:"family"`
+	Kind   string `json:"kind"`  // negative-batch-concurrency | configured-after-wiring
+	Val    int    `json:"val"`   // the value (a concurrency / a budget)
+	Route  string `json:"route"` // how the value is given
+	Via    string `json:"via"`   // configured-after-wiring: "run" (flyt.Run on the node) or "flow" (the flow it was wired into)
+}
+
+// seqProbe runs a 6-item batch on the node and reports the highest number of items in flight and whether the items
+// were processed in item order.
+func seqProbe(bn *flyt.BatchNodeBuilder) (maxIn int32, inOrder bool, err error) {
+	var in, hw atomic.Int32
+	var mu sync.Mutex
+	var order []int
+	bn.WithPrepFunc(func(ctx context.Context, s *flyt.SharedStore) ([]flyt.Result, error) {
+		rs := make([]flyt.Result, 6)
+		for i := range rs {
+			rs[i] = flyt.NewResult(i)
+		}
+		return rs, nil
+	}).WithExecFuncAny(func(ctx context.Context, v any) (any, error) {
+		n := in.Add(1)
+		for {
+			h := hw.Load()
+			if n <= h || hw.CompareAndSwap(h, n) {
+				break
+			}
+		}
+		mu.Lock()
+		order = append(order, v.(int))
+		mu.Unlock()
+		time.Sleep(2 * time.Millisecond)
+		in.Add(-1)
+		return v, nil
+	})
+	_, err = flyt.Run(context.Background(), bn, flyt.NewSharedStore())
+	inOrder = true
+	for i, v := range order {
+		if v != i {
+			inOrder = false
+		}
+	}
+	return hw.Load(), inOrder && len(order) == 6, err
+}
+
+func runRouteCase(cs *RouteCase) (fs []finding) {
+	add := func(key, f string, a ...any) { fs = append(fs, finding{key, fmt.Sprintf(f, a...)}) }
+	defer func() {
+		if p := recover(); p != nil {
+			fs = append(fs, finding{"panic:" + cs.Kind, fmt.Sprint(p)})
+		}
+	}()
+	switch cs.Kind {
+	case "negative-batch-concurrency":
+		// a negative concurrency is a value like any other: whatever it means, it means the same through every route, and
+		// it is the last setting that counts
+		ref := flyt.NewBatchNode(flyt.WithBatchConcurrency(cs.Val))
+		var n *flyt.BatchNodeBuilder
+		switch cs.Route {
+		case "builder":
+			n = flyt.NewBatchNode().WithBatchConcurrency(cs.Val)
+		case "option-then-builder":
+			n = flyt.NewBatchNode(flyt.WithBatchConcurrency(4)).WithBatchConcurrency(cs.Val)
+		case "builder-twice":
+			n = flyt.NewBatchNode().WithBatchConcurrency(5).WithBatchConcurrency(cs.Val)
+		case "plain-node-builder":
+			nb := flyt.NewNode().WithBatchConcurrency(cs.Val)
+			if g, w := nb.GetBatchConcurrency(), ref.GetBatchConcurrency(); g != w {
+				add("route-differs:negative-batch-concurrency:getter", "NewNode().WithBatchConcurrency(%d) reports %d, the option form reports %d", cs.Val, g, w)
+			}
+			return
+		}
+		if g, w := n.GetBatchConcurrency(), ref.GetBatchConcurrency(); g != w {
+			add("route-differs:negative-batch-concurrency:getter", "batch concurrency %d given through route %q: GetBatchConcurrency()=%d, the constructor-option form reports %d", cs.Val, cs.Route, g, w)
+		}
+		mr, or, er := seqProbe(ref)
+		mn, on, en := seqProbe(n)
+		if er != nil || en != nil {
+			add("route-differs:negative-batch-concurrency:run-error", "runs failed: option form %v, route %q %v", er, cs.Route, en)
+			return
+		}
+		if mr == 1 && or && (mn != 1 || !on) {
+			add("route-differs:negative-batch-concurrency:behaviour", "batch concurrency %d: the constructor-option form ran 6 items strictly one at a time in item order; given through route %q the same value had %d items in flight at once (in item order: %v)", cs.Val, cs.Route, mn, on)
+		}
+	case "configured-after-wiring":
+		// the budget is (re-)configured AFTER the node has been handed to NewFlow / Connect: the setting in force when the
+		// node runs is the budget — through flyt.Run on the node and through the flow alike
+		attempts := 0
+		var nb *flyt.NodeBuilder
+		mk := func() *flyt.NodeBuilder {
+			return flyt.NewNode().WithExecFuncAny(func(ctx context.Context, p any) (any, error) {
+				attempts++
+				return nil, errors.New("always fails")
+			})
+		}
+		head := flyt.NewNode()
+		var f *flyt.Flow
+		switch cs.Route {
+		case "start-node-then-builder":
+			nb = mk()
+			f = flyt.NewFlow(nb)
+			nb.WithMaxRetries(cs.Val)
+		case "connect-then-builder":
+			nb = mk().WithMaxRetries(cs.Val + 3)
+			f = flyt.NewFlow(head)
+			f.Connect(head, flyt.DefaultAction, nb)
+			nb.WithMaxRetries(cs.Val)
+		case "connect-then-option":
+			nb = mk().WithMaxRetries(cs.Val + 2)
+			f = flyt.NewFlow(head)
+			f.Connect(head, flyt.DefaultAction, nb)
+			flyt.WithMaxRetries(cs.Val)(nb.BaseNode)
+		case "builder-then-connect": // control: configured before wiring
+			nb = mk().WithMaxRetries(cs.Val)
+			f = flyt.NewFlow(head)
+			f.Connect(head, flyt.DefaultAction, nb)
+		}
+		if g := nb.GetMaxRetries(); g != cs.Val {
+			add("configured-after-wiring:getter", "route %q: GetMaxRetries()=%d, the last setting says %d", cs.Route, g, cs.Val)
+		}
+		var err error
+		if cs.Via == "flow" {
+			_, err = flyt.Run(context.Background(), f, flyt.NewSharedStore())
+		} else {
+			_, err = flyt.Run(context.Background(), nb, flyt.NewSharedStore())
+		}
+		if err == nil {
+			add("configured-after-wiring:no-error", "route %q via %s: every attempt fails, the run returned nil", cs.Route, cs.Via)
+		}
+		if attempts != cs.Val {
+			add("configured-after-wiring:attempts", "budget %d configured through route %q (the node was wired into a flow before its last setting was made), run through %s: %d exec attempts were made, want %d — the last setting of a parameter wins, whenever it is made", cs.Val, cs.Route, cs.Via, attempts, cs.Val)
+		}
 	}
 	return fs
 }
